@@ -58,6 +58,7 @@ type c35WState struct {
 	bytesRead int64
 	accepted  int64
 	open      int64
+	pending   int64 // Read calls in progress: a handler blocked in Read has finished with what it was given
 	hwm       int64
 }
 
@@ -85,8 +86,10 @@ type c35WConn struct {
 }
 
 func (c *c35WConn) Read(p []byte) (int, error) {
+	atomic.AddInt64(&c.st.pending, 1)
 	n, err := c.Conn.Read(p)
 	atomic.AddInt64(&c.st.bytesRead, int64(n))
+	atomic.AddInt64(&c.st.pending, -1)
 	return n, err
 }
 
@@ -149,6 +152,7 @@ type c35Stat struct {
 	BytesRead  int64          `json:"bytes_read"`
 	Accepted   int64          `json:"accepted"`
 	Open       int64          `json:"open"`
+	Pending    int64          `json:"pending_reads"`
 	Handlers   int            `json:"handlers"`
 	HWM        int64          `json:"hwm"`
 }
@@ -211,7 +215,7 @@ func c35WorkerMain() {
 			}
 			st.mu.Unlock()
 			b, _ := json.Marshal(c35Stat{ms.HeapAlloc, ms.TotalAlloc, ms.Sys, calls, atomic.LoadInt64(&st.bytesRead),
-				atomic.LoadInt64(&st.accepted), atomic.LoadInt64(&st.open), len(svc.connLimiterCh), atomic.LoadInt64(&st.hwm)})
+				atomic.LoadInt64(&st.accepted), atomic.LoadInt64(&st.open), atomic.LoadInt64(&st.pending), len(svc.connLimiterCh), atomic.LoadInt64(&st.hwm)})
 			say("STAT %s", b)
 		case "QUIT":
 			os.Exit(0)
@@ -741,10 +745,14 @@ func c35Run(w *c35Worker, c c35Case, expectDrop bool) (o c35Obs, replace bool, f
 	o.Sent = len(c.stream)
 	before := w.stat(true)
 	if before == nil {
-		return o, true, "worker dead before the case: " + w.stderr()
+		return o, true, c35DeadBefore
 	}
 	crashed := func() (c35Obs, bool, string) {
-		<-w.exited
+		select {
+		case <-w.exited:
+		case <-time.After(30 * time.Second):
+			return o, true, "worker unresponsive" // alive but silent: machinery trouble, no verdict
+		}
 		o.Crashed = true
 		o.CrashReason, o.CrashWhere = c35CrashInfo(w.stderr())
 		return o, true, ""
@@ -761,14 +769,15 @@ func c35Run(w *c35Worker, c c35Case, expectDrop bool) (o c35Obs, replace bool, f
 	if len(c.stream) > 0 {
 		conn.Write(c.stream) // an error here means the node already dropped us
 	}
-	// let the node take what it wants to take: until it has read everything or dropped the connection
+	// let the node take what it wants to take and finish with it: until it has dropped the connection, or has
+	// read everything and is blocked in the next read (so that what follows does not race with its processing)
 	var cur *c35Stat
 	for dl := time.Now().Add(20 * time.Second); ; {
 		cur = w.stat(false)
 		if cur == nil {
 			return crashed()
 		}
-		if cur.Accepted > before.Accepted && (cur.BytesRead-before.BytesRead >= int64(len(c.stream)) || cur.Open == 0) {
+		if cur.Accepted > before.Accepted && (cur.Open == 0 || (cur.BytesRead-before.BytesRead >= int64(len(c.stream)) && cur.Pending >= cur.Open)) {
 			break
 		}
 		if time.Now().After(dl) {
@@ -835,11 +844,23 @@ func c35Run(w *c35Worker, c c35Case, expectDrop bool) (o c35Obs, replace bool, f
 		}
 	}
 	o.ProbeOK = c35Probe(w.addr)
-	if !o.ProbeOK && w.dead() {
-		return crashed()
+	if !o.ProbeOK {
+		// a node that is dying of this input has already dropped its connections (the deferred
+		// calls of the panicking goroutine) but may not have exited yet: give it time to
+		select {
+		case <-w.exited:
+			return crashed()
+		case <-time.After(10 * time.Second):
+		}
+		o.ProbeOK = c35Probe(w.addr) // still alive: ask once more
+		if !o.ProbeOK && w.dead() {
+			return crashed()
+		}
 	}
 	return o, o.Lingering || !o.ProbeOK || o.AllocDelta > c35RetireAlloc, ""
 }
+
+const c35DeadBefore = "worker dead before the case"
 
 type c35Vio struct{ key, what string }
 
@@ -883,7 +904,7 @@ func TestVerif_C35(t *testing.T) {
 	r := kit.Start(t, "C35", "bytes")
 	defer r.Finish()
 	thorough := r.Thorough()
-	r.Rule("product: mux header byte {the cluster header, an unregistered byte (thorough: 0,1,3,9,255), none} x 8-byte little-endian length prefix {0, 1, n-1, n, n+1, 2^31, 2^40, 2^63, 2^64-1} (n = bytes that follow) x payload {nothing; garbage of 3, 64, 70000 bytes; for each of the 14 command types and an undefined type: no request / a well-formed request, each with and without credentials; every truncation of a valid EXECUTE message; every byte of it XORed with 01, 80, ff (thorough: all 8 single bits and ff, also for BACKUP_STREAM)} x connection behaviour {write and close, write and half-close and read to EOF, write and stall}. Quick tier: the giant prefixes and the prefix 0 (after which the payload itself is read as the next prefix) are combined with 5 representative payloads, truncations/flips with prefixes n-1,n,n+1 and half-close only. Each stream is sent to a worker process running the real tcp.Mux + cluster.Service under RLIMIT_AS; after the node has read what it wants the behaviour is applied, the node is left to drop the connection, then a well-formed GET_NODE_META is sent on a new connection. Oracle: the worker process is alive and answers; cumulative allocation during the case (runtime.MemStats.TotalAlloc) and live heap while stalled <= 4 x bytes sent + 16 MiB; mock database/manager calls <= the calls of correctly authorized commands found by a reference reading of the same bytes; when the last complete frame does not decode and the client stalls, the node answers or drops the connection (10 s allowed, against its 30 s idle timeout). distinct = (what the node was doing with the last bytes, behaviour, outcome)")
+	r.Rule("product: mux header byte {the cluster header, an unregistered byte (thorough: 0,1,3,9,255), none} x 8-byte little-endian length prefix {0, 1, n-1, n, n+1, 2^31, 2^40, 2^63, 2^64-1} (n = bytes that follow) x payload {nothing; garbage of 3, 64, 70000 bytes; for each of the 14 command types and an undefined type: no request / a well-formed request, each with and without credentials; every truncation of a valid EXECUTE message; every byte of it XORed with 01, 80, ff (thorough: all 8 single bits and ff, also for BACKUP_STREAM)} x connection behaviour {close without reading, half-close and read to EOF, stall} applied once the node has dropped the connection or has read everything and is blocked in its next read. Quick tier: the giant prefixes and the prefix 0 (after which the payload itself is read as the next prefix) are combined with 5 representative payloads, truncations/flips with prefixes n-1,n,n+1 and half-close only. Each stream is sent to a worker process running the real tcp.Mux + cluster.Service under RLIMIT_AS; after that the node is left to drop the connection, then a well-formed GET_NODE_META is sent on a new connection. Oracle: the worker process is alive and answers; cumulative allocation during the case (runtime.MemStats.TotalAlloc) and live heap while stalled <= 4 x bytes sent + 16 MiB; mock database/manager calls <= the calls of correctly authorized commands found by a reference reading of the same bytes; when the last complete frame does not decode and the client stalls, the node answers or drops the connection (10 s allowed, against its 30 s idle timeout). distinct = (what the node was doing with the last bytes, behaviour, outcome)")
 	r.Assume("worker: real tcp.Mux and cluster.Service, recording mock database and manager, real auth.CredentialsStore holding one user u/p with `all`; a crashed worker is replaced by a fresh one; a worker that allocated more than 256 MiB in a case is retired")
 	r.Assume(fmt.Sprintf("address-space limit of the worker %d GiB: an allocation that does not fit kills the worker the way it would kill a node whose memory is exhausted", c35AddrLimit>>30))
 	r.Assume("commands for which rqlite defines no permission (GET_NODE_META, HIGHWATER_MARK_UPDATE) are not judged for state change; delivered high-water-mark updates are counted in the evidence")
@@ -933,9 +954,32 @@ func TestVerif_C35(t *testing.T) {
 					w.kill()
 				}
 			}()
+			last := -1 // the case this worker process ran last
+			// a worker found dead when nothing has been sent to it yet died of the previous input (a
+			// panicking goroutine runs its deferred Close first, the process exits a little later)
+			blame := func() {
+				if last >= 0 && w != nil && results[last].fault == "" && !results[last].obs.Crashed {
+					select {
+					case <-w.exited:
+					case <-time.After(10 * time.Second):
+						return // not dead, only unresponsive: no verdict
+					}
+					o := results[last].obs
+					o.Crashed, o.ProbeOK = true, false
+					o.CrashReason, o.CrashWhere = c35CrashInfo(w.stderr())
+					results[last].obs = o
+					results[last].vios = c35Judge(cases[last], results[last].exp, o)
+				}
+			}
 			for {
 				i := int(next.Add(1)) - 1
 				if i >= len(cases) {
+					if w != nil {
+						time.Sleep(300 * time.Millisecond)
+						if w.stat(false) == nil {
+							blame()
+						}
+					}
 					return
 				}
 				if r.OverBudget() {
@@ -961,9 +1005,15 @@ func TestVerif_C35(t *testing.T) {
 					} else {
 						runNs.Add(int64(time.Since(t1)))
 					}
+					if fault == c35DeadBefore {
+						blame()
+					}
 					if replace {
 						w.kill()
 						w = nil
+						last = -1
+					} else {
+						last = i
 					}
 					if fault != "" && attempt < 2 {
 						continue // machinery hiccup (not a verdict): once more on a fresh worker
@@ -998,11 +1048,6 @@ func TestVerif_C35(t *testing.T) {
 		o := rs.obs
 		out := "served"
 		switch {
-		case c.Behaviour == "close":
-			// the harness closes without reading: whether the node still gets to act (or to crash)
-			// before its writes fail is a race by nature, so close cases are judged like the others
-			// but their outcome is kept out of the evidence counters
-			out = "judged (the outcome depends on a race with the reset and is not recorded)"
 		case o.Crashed:
 			out = "CRASH " + o.CrashReason + " at " + o.CrashWhere
 		case !o.ProbeOK:
@@ -1014,10 +1059,10 @@ func TestVerif_C35(t *testing.T) {
 		case len(o.Calls) > 0:
 			out = "served, authorized command performed"
 		}
-		if len(o.Calls) > 0 && len(rs.vios) == 0 && c.Behaviour != "close" {
+		if len(o.Calls) > 0 && len(rs.vios) == 0 {
 			acted++
 		}
-		if (o.Crashed || o.AllocDelta > c35RetireAlloc) && c.Behaviour != "close" {
+		if o.Crashed || o.AllocDelta > c35RetireAlloc {
 			replaced++
 		}
 		if o.HWM > 0 {
@@ -1038,8 +1083,8 @@ func TestVerif_C35(t *testing.T) {
 	}
 	r.State(len(cases))
 	r.Set("outcomes", outcomes)
-	r.Set("cases_after_which_the_worker_process_had_to_be_replaced_(half-close_and_stall)", replaced)
-	r.Set("cases_in_which_an_authorized_command_acted_(half-close_and_stall)", acted)
+	r.Set("cases_after_which_the_worker_process_had_to_be_replaced", replaced)
+	r.Set("cases_in_which_an_authorized_command_acted", acted)
 	r.Set("cases_in_which_a_high_water_mark_update_was_delivered_without_any_permission_check", hwmDelivered)
 	if budget > 0 {
 		r.Cap("time budget: %d of %d cases not run", budget, len(cases))
